@@ -11,7 +11,7 @@ output is a process that builds the same design and makes ONLY that call, under 
 Coq (Corr/C07.v) replays the history through the pass-manager model (Model/C07PassMgr.v) and returns per case
 0 | code + 10*(call+1).
 """
-import json, itertools
+import json, itertools, subprocess
 from concurrent.futures import ThreadPoolExecutor
 from . import core
 from .core import clist, cbool
@@ -415,9 +415,25 @@ def malformed(seed, n):
 
 
 # ------------------------------------------------------------------------------------------ run
+def own_closure_builds(run):
+    """When the project-wide build fails in ANOTHER property's file (e.g. a table-driven theorem of that property on a tree
+    with that property's defect), C07's obligations are still decided by C07's own closure: build exactly that."""
+    if getattr(run, "build_ok", True):
+        return
+    p = subprocess.run(["timeout", "1500", "make", "theories/Props/C07.vo", "theories/Corr/C07.vo"], cwd=core.COQDIR,
+                       capture_output=True, text=True)
+    names, current = core.props_obligations("C07")
+    if p.returncode == 0 and current:
+        run.build_ok = True
+        run.coverage["discharged"] = len(names)
+        run.notes.append("the project-wide Coq build fails in another property's file on this tree; C07's own closure "
+                         "(Props/C07.vo, Corr/C07.vo and everything they import) builds and is what this run uses")
+
+
 def run(run, tier, seed, replay=None):
     quick = tier == "quick"
     refs = Refs()
+    own_closure_builds(run)
     if replay is not None:
         job = replay.get("case")
         mode = replay.get("mode", "direct")
